@@ -8,6 +8,8 @@ ls -d seeded/$G/ | while read d; do
   checks=$pid
   case $pid in C01|C02|C03) checks="C01 C02 C03";; C23|C32) checks="C23 C32";; esac
   [ "$name" = "C50_2" ] && checks="C50 C38"
+  [ "$name" = "C02_r2_1" ] && checks="C02 C25 C12 C14"
+  [ "$name" = "C11_r2_2" ] && checks="C11 C01 C02 C03"
   echo "$pid $d $name $checks"
 done | xargs -P $P -L 1 bash -c 'timeout 3000 tools/seedtest.py $0 $1 $2 ${@:3} --checks-only 2>&1 | grep "stored\|does not apply" | sed "s|/verif/seeded/||"'
 python3 tools/gen_design_tables.py
